@@ -14,7 +14,10 @@ MANIFEST = dict(
           "assert_array_equal_units, the numpy isclose/allclose/array_equal/array_equiv handlers and the accepts/returns "
           "decorators run on quantities whose values, unit scales, rtol and atol are z3 reals; per path z3 proves "
           "verdict <=> verdict computed on SI magnitudes (boundary band excused) for ALL values/scales/tolerances; models "
-          "are replayed on plain unyt. Bounded: argument kinds, tolerance spellings, dimension choices, shapes <= (2,)."),
+          "are replayed on plain unyt. Spelling twins (the same unit symbol with another scale or another dimension in a second "
+          "registry, re-registered, built by hand, or re-assigned on the same object) and two-/three-call histories inside one "
+          "path check that no verdict depends on how a unit is spelled or on earlier calls. Bounded: argument kinds, tolerance "
+          "spellings, dimension choices, shapes <= (2,), histories of <= 3 calls."),
     design="DESIGN.md section 4 C19",
     technique="symbolic execution of the real Python code over z3 real terms; SMT (QF_NRA) obligations per path; counterexample replay")
 EXPLANATION = (
@@ -28,7 +31,18 @@ EXPLANATION = (
     "decorated function body runs exactly when all checked arguments / return values have the declared dimension and its result "
     "object is handed through untouched (the decision never branches on a value or a scale: one path per case covers them all). "
     "Where a known finding makes the documented oracle fail, a twin obligation states the reading the code actually implements "
-    "and must hold, so that any other deviation in those cells still alarms."
+    "and must hold, so that any other deviation in those cells still alarms. "
+    "Spelling and history independence: the single-call cases take all units of a call from one registry and make one call per "
+    "path, so C19/twins/* and C19/decorator-history/* put the SAME spelling (plain, SI-prefixed, squared, in a product) into "
+    "several registries of one path with other symbolic scales or another dimension (also: symbol removed and re-added, "
+    "Unit(spelling, base_value=, dimensions=) built by hand, the units attribute of one quantity object re-assigned), mix them "
+    "within one call (actual ~ desired ~ atol) and run histories of two and three calls inside one path (the runner clears "
+    "unyt's caches only at the start of a path; harness unit names of the decorator histories are unique per case so that "
+    "process-level state of a changed library cannot leak between cases). Every call of a history carries the oracle of the "
+    "single-call cases, which knows neither spellings nor earlier calls; for the decorators the subjects of a history agree "
+    "pairwise on exactly one candidate memo key (spelling / unit without declared dimension / declared dimension without unit / "
+    "decorated function object / quantity object) and differ in the expected verdict, and what comes through a passing check "
+    "must have the SI magnitude that went in (z3)."
 )
 BOUNDS = {
     "quick": "functions {allclose_units, assert_allclose_units, numpy.allclose, numpy.isclose, numpy.array_equal, "
@@ -40,13 +54,33 @@ BOUNDS = {
              "a selection of the product: every operand form with the finding-free tolerance spellings, the cells where the known "
              "findings fire (bare atol x different units, unit-carrying atol for the numpy handlers with scalar operands, rtol "
              "quantity) a few each; re-expression via another row / a prefixed unit; decorators x 4 usages over the 12-dimension "
-             "quick catalogue, spellings {plain, k-prefixed, M-prefixed array, compound of base rows} and 4-6 wrong dimensions each",
+             "quick catalogue, spellings {plain, k-prefixed, M-prefixed array, compound of base rows} and 4-6 wrong dimensions each; "
+             "spelling twins and histories (C19/twins): registries {base, same spellings other scales, same spellings with xa a time} "
+             "x 7 one-call mixes (actual~desired same spelling other scale / other dimension, prefixed, atol spelled like an operand "
+             "unit with other scale / other dimension), 8 two-call histories (repeat with fresh values, swapped operands, "
+             "same-then-cross, cross-then-same, twin scale, accepted-then-twin-dimension and reverse, prefixed twin) and 4 three-call "
+             "histories for allclose_units/assert_allclose_units x atol {default, own unit, bare}, a selection of them for the numpy "
+             "handlers, 11 one-/two-/three-call histories for array_equal/array_equiv/assert_array_equal_units; decorator histories "
+             "(C19/decorator-history): subjects {unit, spelling twin of the other dimension, spelling twin of the same dimension "
+             "and other scale, other spelling of the other dimension} x declared {own, other dimension}: ALL 64 ordered two-call "
+             "histories x 4 kinds of twin {second registry, remove+add, hand-built Unit, units attribute re-assigned on the same "
+             "object} (288 cases), 176 three-call histories (x,y,x / x,x,y / x,y,y) with the kind rotating; rotating over 26 dimension pairs "
+             "(incl. EM counterparts, dimensionless), spellings {plain, k-prefixed, squared, product with a time row}, usages "
+             "{accepts positional/keyword, returns single/tuple, _has_dimensions} same for all calls through one shared decorated "
+             "function or mixed with a fresh decoration per call",
     "thorough": "same axes; all 10 same-dimension operand pairs x all atol spellings for both *_units helpers, bare atol on every "
                 "pair, numpy handlers on all pairs, unit-carrying atol also with (2,) operands, re-expression with (2,) operands "
                 "and via a third spelling; decorators: all 9 usages over all 53 dimensions of unyt.dimensions and the default unit "
-                "table, spellings plus root ('xr**0.5') and square",
+                "table, spellings plus root ('xr**0.5') and square; twins: every history x every atol spelling x forms q and (2,) "
+                "(three-call histories scalar only; the numpy handlers with a unit-carrying atol in two-call histories scalar only "
+                "and without the prefixed twin) for all four closeness functions and the array_equal family; decorator "
+                "histories: all 64 two-call histories x 4 kinds x 4 spellings x {same usage through one shared decorated function, "
+                "mixed usages decorated afresh}, ALL 512 three-call histories x 4 kinds",
 }
-OUTSIDE = ("IEEE rounding/overflow/nan/inf and equal_nan (A1); units with an offset (degC, degF: a relative tolerance on an "
+OUTSIDE = ("histories longer than three calls, state carried between processes or through pickling (C11), spelling twins inside "
+           "compound units other than square/product, twins of the tolerance's unit in histories (single calls only), memos "
+           "keyed by object identity are only met through the re-assigned-units subject (identity reuse after garbage "
+           "collection is not provoked); IEEE rounding/overflow/nan/inf and equal_nan (A1); units with an offset (degC, degF: a relative tolerance on an "
            "offset scale is not unit-invariant by construction); negative rtol/atol; array-valued atol/rtol; integer/complex "
            "payloads; shapes beyond (2,); unit scales that differ by less than 1e-8 relative without being identical (unyt "
            "deliberately treats units within 1e-9 as the same unit); rtol given as a quantity to numpy.isclose/allclose; default "
@@ -81,11 +115,24 @@ def _dims(ctx, tag):
     return {"L": D.length, "T": D.time, "N": D.dimensionless, "C": D.length**2 / D.time}[tag]
 
 
+def twin_registry(ctx, tag, dims=None):
+    """a further registry of the same path in which the harness rows are spelled the same but carry their own scale symbols
+    (`<name>_s<tag>`) and, for the names in `dims` (name -> dimension tag), another dimension: the spelling twins"""
+    reg = ctx.registry([])
+    reg._c19_tag = tag
+    reg._c19_dims = dict(dims or {})
+    return reg
+
+
+def _dimtag(reg, name, default):
+    return getattr(reg, "_c19_dims", {}).get(name, default)
+
+
 def _row(ctx, reg, name, tag, prefixable=False):
-    """harness unit `name` with a symbolic positive scale (created once per path)"""
-    s = ctx.real(name + "_s", pos=True)
+    """harness unit `name` with a symbolic positive scale (created once per path and registry)"""
+    s = ctx.real(name + "_s" + getattr(reg, "_c19_tag", ""), pos=True)
     if name not in reg.lut:
-        ctx.add_row(reg, name, _dims(ctx, tag), s, 0.0, prefixable=prefixable)
+        ctx.add_row(reg, name, _dims(ctx, _dimtag(reg, name, tag)), s, 0.0, prefixable=prefixable)
     return s
 
 
@@ -102,11 +149,13 @@ def unit_of(ctx, reg, spec):
     if spec == "xt":
         return spec, _row(ctx, reg, "xt", "T"), "T"
     if spec in LROWS:
-        return spec, _row(ctx, reg, spec, "L", prefixable=True), "L"
+        return spec, _row(ctx, reg, spec, "L", prefixable=True), _dimtag(reg, spec, "L")
     if spec[0] in ("k", "c", "u") and spec[1:] in LROWS:
         s = _row(ctx, reg, spec[1:], "L", prefixable=True)
-        return spec, s * PREFIX[spec[0]], "L"
+        return spec, s * PREFIX[spec[0]], _dimtag(reg, spec[1:], "L")
     if spec.endswith("**2/xs"):
+        if _dimtag(reg, spec[:-6], "L") != "L":
+            raise KeyError("compound spelling of a re-dimensioned twin row: " + spec)
         s = _row(ctx, reg, spec[:-6], "L", prefixable=True)
         st = _row(ctx, reg, "xs", "T")
         return spec, s * s / st, "C"
@@ -145,24 +194,24 @@ def pairs(A, D):
 
 # ----------------------------------------------------------------------------------------------- tolerance spellings
 
-def make_atol(ctx, reg, how):
+def make_atol(ctx, reg, how, tag=""):
     """-> (kwargs, atol number, SI scale of its unit or None when bare, dim tag | 'bare')"""
     if how == "default":
         return {}, None, None, "bare"
     if how == "zero":
         return {"atol": 0.0}, 0.0, None, "bare"
-    t = ctx.real("atol", lo=0)
+    t = ctx.real("atol" + tag, lo=0)
     if how == "bare":
         return {"atol": t}, t, None, "bare"
     ustr, s, dim = unit_of(ctx, reg, how)
     return {"atol": ctx.quantity(t, ustr, reg)}, t, s, dim
 
 
-def make_rtol(ctx, reg, how, default):
+def make_rtol(ctx, reg, how, default, tag=""):
     """-> (kwargs, the relative tolerance as a pure number per physical reading, dim tag, the raw number)"""
     if how == "default":
         return {}, default, "N", default
-    r = ctx.real("rtol", lo=0)
+    r = ctx.real("rtol" + tag, lo=0)
     if how == "bare":
         return {"rtol": r}, r, "N", r
     ustr, s, dim = unit_of(ctx, reg, how)
@@ -267,54 +316,62 @@ def effective_sides(fn_name, A, D, relabel_dimensionless=False):
     return sa, da, sd, dd
 
 
+def close_step(ctx, fn_name, rega, fa, ua, regd, fd, ud, atol_how, rtol_how, tag="", lp="", regt=None):
+    """ONE call of a closeness helper and its obligations. `actual` is written in a unit of registry `rega`, `desired` in a
+    unit of `regd`, a unit-carrying tolerance in a unit of `regt` (default `rega`); `tag` keeps the symbols of several calls
+    of one path apart, `lp` prefixes the obligation labels (which call of a history)."""
+    npf = fn_name in NP_FAMILY
+    regt = rega if regt is None else regt
+    A = operand(ctx, rega, "a" + tag, fa, ua)
+    Dd = operand(ctx, regd, "d" + tag, fd, ud)
+    kwa, atol, atol_scale, atol_dim = make_atol(ctx, regt, atol_how, tag)
+    if atol is None:
+        atol = 1e-8 if npf else 0.0
+    kwr, rtol, rtol_dim, rtol_raw = make_rtol(ctx, regt, rtol_how, 1e-5 if npf else 1e-7, tag)
+    kw = dict(kwa, **kwr)
+    sa, da, sd, dd = effective_sides(fn_name, A, Dd)
+    separate(ctx, sa, sd)
+    if atol_scale is not None:
+        separate(ctx, atol_scale, sa)
+    out = run_close(ctx, fn_name, A.obj, Dd.obj, kw)
+    ctx.observe("outcome" + tag, out[0] if out[0] == "verdict" else type(out[1]).__name__)
+    if da != dd:
+        ctx.require(lp + "incommensurable operands are refused", refused(ctx, fn_name, out), got=str(out)[:200])
+        return
+    if rtol_dim != "N":
+        ctx.require(lp + "dimensional rtol raises RuntimeError", out[0] == "raise" and type(out[1]) is RuntimeError, got=str(out)[:200])
+        return
+    if atol_dim != "bare" and atol_dim != da:
+        ctx.require(lp + "atol of another dimension is refused", refused(ctx, fn_name, out), got=str(out)[:200])
+        return
+    if out[0] != "verdict":
+        ctx.require(lp + f"commensurable operands and tolerances give a verdict (raised {type(out[1]).__name__})", False, got=repr(out[1])[:200])
+        return
+    vs = out[1]
+    rel_d = ratio(sd, sa)
+    if npf and da == "N" and is_null(A) != is_null(Dd) and atol_how == "zero":
+        # a unitless operand against a dimensionless unit of another scale (percent, ppm ...)
+        check_verdicts(ctx, lp + "verdict == SI oracle, unitless operand against a dimensionless unit of other scale", fn_name, vs,
+                       margins(A, Dd, rel_d, 0.0, rtol))
+    elif atol_dim == "bare":
+        # a bare atol is in the unit of `desired` (the as-implemented twin "read in actual's unit" was dropped when
+        # 14b8216 / a284d7d repaired the defect)
+        doc = margins(A, Dd, rel_d, atol * rel_d, rtol)
+        check_verdicts(ctx, lp + "verdict == SI oracle, bare atol read in desired's unit", fn_name, vs, doc)
+    else:
+        mb = margins(A, Dd, rel_d, atol * ratio(atol_scale, sa), rtol)
+        lab = "verdict == SI oracle, atol in its own unit"
+        if rtol_how not in ("default", "bare"):
+            lab += ", rtol a dimensionless quantity"
+        check_verdicts(ctx, lp + lab, fn_name, vs, mb)
+
+
 def make_close_case(fn_name, fa, ua, fd, ud, atol_how, rtol_how):
     npf = fn_name in NP_FAMILY
 
     def h(ctx):
         reg = ctx.registry([])
-        A = operand(ctx, reg, "a", fa, ua)
-        Dd = operand(ctx, reg, "d", fd, ud)
-        kwa, atol, atol_scale, atol_dim = make_atol(ctx, reg, atol_how)
-        if atol is None:
-            atol = 1e-8 if npf else 0.0
-        kwr, rtol, rtol_dim, rtol_raw = make_rtol(ctx, reg, rtol_how, 1e-5 if npf else 1e-7)
-        kw = dict(kwa, **kwr)
-        sa, da, sd, dd = effective_sides(fn_name, A, Dd)
-        separate(ctx, sa, sd)
-        if atol_scale is not None:
-            separate(ctx, atol_scale, sa)
-        out = run_close(ctx, fn_name, A.obj, Dd.obj, kw)
-        ctx.observe("outcome", out[0] if out[0] == "verdict" else type(out[1]).__name__)
-        if da != dd:
-            ctx.require("incommensurable operands are refused", refused(ctx, fn_name, out), got=str(out)[:200])
-            return
-        if rtol_dim != "N":
-            ctx.require("dimensional rtol raises RuntimeError", out[0] == "raise" and type(out[1]) is RuntimeError, got=str(out)[:200])
-            return
-        if atol_dim != "bare" and atol_dim != da:
-            ctx.require("atol of another dimension is refused", refused(ctx, fn_name, out), got=str(out)[:200])
-            return
-        if out[0] != "verdict":
-            ctx.require(f"commensurable operands and tolerances give a verdict (raised {type(out[1]).__name__})", False, got=repr(out[1])[:200])
-            return
-        vs = out[1]
-        rel_d = ratio(sd, sa)
-        if npf and da == "N" and is_null(A) != is_null(Dd) and atol_how == "zero":
-            # a unitless operand against a dimensionless unit of another scale (percent, ppm ...)
-            check_verdicts(ctx, "verdict == SI oracle, unitless operand against a dimensionless unit of other scale", fn_name, vs,
-                           margins(A, Dd, rel_d, 0.0, rtol))
-        elif atol_dim == "bare":
-            # documented: a bare atol is in the unit of `desired`; implemented: in the unit of `actual`
-            doc = margins(A, Dd, rel_d, atol * rel_d, rtol)
-            impl = margins(A, Dd, rel_d, atol, rtol)
-            check_verdicts(ctx, "verdict == SI oracle, bare atol read in desired's unit", fn_name, vs, doc)
-            # (the as-implemented twin "read in actual's unit" was dropped when 14b8216 / a284d7d repaired the defect)
-        else:
-            mb = margins(A, Dd, rel_d, atol * ratio(atol_scale, sa), rtol)
-            lab = "verdict == SI oracle, atol in its own unit"
-            if rtol_how not in ("default", "bare"):
-                lab += ", rtol a dimensionless quantity"
-            check_verdicts(ctx, lab, fn_name, vs, mb)
+        close_step(ctx, fn_name, reg, fa, ua, reg, fd, ud, atol_how, rtol_how)
     if rtol_how not in ("default", "bare") and atol_how in ("default", "bare"):
         raise ValueError("rtol-quantity cases use a unit-carrying atol (labels)")
     return Case(f"C19/{fn_name}/{fa}:{ua}~{fd}:{ud}/atol={atol_how}/rtol={rtol_how}", h,
@@ -386,26 +443,166 @@ def run_equal(ctx, fn_name, x, y):
     raise KeyError(fn_name)
 
 
+def equal_step(ctx, fn_name, rega, fa, ua, regb, fb, ub, tag="", lp=""):
+    """ONE call of a member of the array_equal family and its obligation"""
+    A = operand(ctx, rega, "a" + tag, fa, ua)
+    B = operand(ctx, regb, "b" + tag, fb, ub)
+    separate(ctx, A.scale, B.scale)
+    out = run_equal(ctx, fn_name, A.obj, B.obj)
+    if out[0] != "verdict":
+        ctx.require(lp + "verdict or documented refusal", False, got=repr(out[1])[:200])
+        return
+    v = out[1]
+    units_equal = And(A.dim == B.dim, eqmath(A.scale, B.scale))
+    if fn_name == "np.array_equal":
+        shapes_ok = A.shape == B.shape
+    else:
+        shapes_ok = True   # () and (2,) broadcast
+    values_equal = And(*[eqmath(a, b) for a, b in pairs(A, B)])
+    # values are compared as physical magnitudes when the units differ; the units themselves must be equal as well
+    ctx.require(lp + "verdict == (equal units and equal values)", Iff(v, And(shapes_ok, units_equal, values_equal)))
+
+
 def make_equal_case(fn_name, fa, ua, fb, ub):
     def h(ctx):
         reg = ctx.registry([])
-        A = operand(ctx, reg, "a", fa, ua)
-        B = operand(ctx, reg, "b", fb, ub)
-        separate(ctx, A.scale, B.scale)
-        out = run_equal(ctx, fn_name, A.obj, B.obj)
-        if out[0] != "verdict":
-            ctx.require("verdict or documented refusal", False, got=repr(out[1])[:200])
-            return
-        v = out[1]
-        units_equal = And(A.dim == B.dim, eqmath(A.scale, B.scale))
-        if fn_name == "np.array_equal":
-            shapes_ok = A.shape == B.shape
-        else:
-            shapes_ok = True   # () and (2,) broadcast
-        values_equal = And(*[eqmath(a, b) for a, b in pairs(A, B)])
-        # values are compared as physical magnitudes when the units differ; the units themselves must be equal as well
-        ctx.require("verdict == (equal units and equal values)", Iff(v, And(shapes_ok, units_equal, values_equal)))
+        equal_step(ctx, fn_name, reg, fa, ua, reg, fb, ub)
     return Case(f"C19/{fn_name}/{fa}:{ua}~{fb}:{ub}", h, oblig_timeout_ms=60000, weight=2)
+
+
+# ----------------------------------------------------------------------------------------------- spelling twins and call histories
+#
+# Every case above makes ONE call per path with all units taken from ONE registry, so a verdict that depends on how a unit is
+# SPELLED (its symbol / sympy expression) rather than on its scale and dimension, or on which calls were made EARLIER in the
+# process (a memo, a fast path remembered from the last call), is invisible to them. The cases below put the same spelling
+# into several registries of one path (another symbolic scale / another dimension) and run two- and three-call histories
+# inside one path (the runner clears unyt's caches at the start of a path only). The oracle of every call is the one of the
+# single-call cases: it knows nothing of spellings or of earlier calls.
+
+# registries of a path: "1" the base registry, "2" the same spellings with other (symbolic) scales, "3" the same spellings
+# where `xa` is a TIME (xd, xc stay lengths)
+def _registries(ctx):
+    regs = {}
+
+    def get(k):
+        if k not in regs:
+            regs[k] = {"1": lambda: ctx.registry([]), "2": lambda: twin_registry(ctx, "t"),
+                       "3": lambda: twin_registry(ctx, "u", {"xa": "T"})}[k]()
+        return regs[k]
+    return get
+
+
+# step of a closeness history: (registry of actual, unit of actual, registry of desired, unit of desired, registry of atol's unit)
+CLOSE_HISTORIES = {
+    # ---- one call, operands (or the tolerance) from different registries: the same spelling within ONE call
+    "cross-scale": [("1", "xa", "2", "xa", "1")],                 # xa ~ xa, same dimension, scales differ
+    "cross-dim": [("1", "xa", "3", "xa", "1")],                   # xa ~ xa, a length against a time
+    "cross-dim-rev": [("3", "xa", "1", "xa", "1")],
+    "cross-prefixed": [("1", "kxa", "2", "kxa", "2")],
+    "cross-atol-scale": [("1", "xa", "1", "xd", "2")],            # atol spelled like a unit of the call, other scale
+    "cross-atol-like-actual": [("1", "xc", "1", "xd", "2")],      # atol spelled exactly like actual's unit, other scale
+    "cross-atol-dim": [("1", "xd", "1", "xd", "3")],              # (with atol=xa: spelled like a length, is a time)
+    # ---- two calls
+    "repeat": [("1", "xa", "1", "xd", "1")] * 2,                  # same units, fresh values and tolerances
+    "swap": [("1", "xa", "1", "xd", "1"), ("1", "xd", "1", "xa", "1")],
+    "same-then-cross": [("1", "xa", "1", "xa", "1"), ("1", "xa", "2", "xa", "1")],
+    "cross-then-same": [("1", "xa", "2", "xa", "1"), ("1", "xa", "1", "xa", "1")],
+    "twin-scale": [("1", "xa", "1", "xd", "1"), ("2", "xa", "2", "xd", "2")],
+    "accepted-then-twin-dim": [("1", "xa", "1", "xd", "1"), ("3", "xa", "3", "xd", "3")],
+    "twin-dim-then-accepted": [("3", "xa", "3", "xd", "3"), ("1", "xa", "1", "xd", "1")],
+    "prefixed-twin-scale": [("1", "kxa", "1", "xd", "1"), ("2", "kxa", "2", "xd", "2")],
+    # ---- three calls
+    "twin-scale-and-back": [("1", "xa", "1", "xd", "1"), ("2", "xa", "2", "xd", "2"), ("1", "xa", "1", "xd", "1")],
+    "twin-dim-and-back": [("1", "xa", "1", "xd", "1"), ("3", "xa", "3", "xd", "3"), ("1", "xa", "1", "xd", "1")],
+    "refused-accepted-refused": [("3", "xa", "3", "xd", "3"), ("1", "xa", "1", "xd", "1"), ("3", "xa", "3", "xd", "3")],
+    "same-cross-same": [("1", "xa", "1", "xa", "1"), ("1", "xa", "2", "xa", "1"), ("2", "xa", "2", "xa", "2")],
+}
+
+
+def make_close_history_case(fn_name, hname, form, atol_how, rtol_how="bare"):
+    steps = CLOSE_HISTORIES[hname]
+    npf = fn_name in NP_FAMILY
+
+    def h(ctx):
+        regs = _registries(ctx)
+        for i, (ra, ua, rd, ud, rt) in enumerate(steps):
+            close_step(ctx, fn_name, regs(ra), form, ua, regs(rd), form, ud, atol_how, rtol_how,
+                       tag="" if i == 0 else str(i + 1), lp="" if len(steps) == 1 else f"call {i + 1} of {len(steps)}: ", regt=regs(rt))
+    return Case(f"C19/twins/{fn_name}/{hname}/{form}/atol={atol_how}/rtol={rtol_how}", h,
+                bounds="symbolic: values, scales of every registry, rtol, atol of every call; enumerated: which registry each unit comes from, the call history",
+                oblig_timeout_ms=60000, budget_s=600, weight=(4 if npf else 2) * len(steps) ** 2)
+
+
+EQUAL_HISTORIES = {
+    "cross-scale": [("1", "xa", "2", "xa")],
+    "cross-dim": [("1", "xa", "3", "xa")],
+    "cross-prefixed": [("1", "kxa", "2", "kxa")],
+    "repeat": [("1", "xa", "1", "xa")] * 2,
+    "same-then-cross": [("1", "xa", "1", "xa"), ("1", "xa", "2", "xa")],
+    "cross-then-same": [("1", "xa", "2", "xa"), ("1", "xa", "1", "xa")],
+    "same-then-twin-dim": [("1", "xa", "1", "xa"), ("1", "xa", "3", "xa")],
+    "twin-dim-then-same": [("1", "xa", "3", "xa"), ("2", "xa", "2", "xa")],
+    "other-unit-then-same": [("1", "xa", "1", "xd"), ("1", "xa", "1", "xa")],
+    "same-cross-same": [("1", "xa", "1", "xa"), ("1", "xa", "2", "xa"), ("2", "xa", "2", "xa")],
+    "cross-same-twin-dim": [("1", "xa", "2", "xa"), ("1", "xa", "1", "xa"), ("3", "xa", "1", "xa")],
+}
+
+
+def make_equal_history_case(fn_name, hname, form):
+    steps = EQUAL_HISTORIES[hname]
+
+    def h(ctx):
+        regs = _registries(ctx)
+        for i, (ra, ua, rb, ub) in enumerate(steps):
+            equal_step(ctx, fn_name, regs(ra), form, ua, regs(rb), form, ub, tag="" if i == 0 else str(i + 1),
+                       lp="" if len(steps) == 1 else f"call {i + 1} of {len(steps)}: ")
+    return Case(f"C19/twins/{fn_name}/{hname}/{form}", h, oblig_timeout_ms=60000, budget_s=600, weight=2 * len(steps) ** 2,
+                bounds="symbolic: values and the scales of every registry; enumerated: which registry each unit comes from, the call history")
+
+
+NP_QUICK_HISTORIES = {"np.allclose": ("repeat", "swap", "same-then-cross", "cross-then-same", "twin-scale", "accepted-then-twin-dim",
+                                      "twin-dim-then-accepted", "twin-dim-and-back"),
+                      "np.isclose": ("repeat", "same-then-cross", "twin-scale", "twin-dim-then-accepted")}
+
+
+def twin_cases(tier):
+    """cost: a history of n calls has the product of the calls' path counts (2-10 each), so the numpy handlers (5-10 paths a
+    call) and assert_array_equal_units on arrays (19 paths a call) get a selection of the histories in the quick tier"""
+    thorough = tier == "thorough"
+    out = []
+    for fn in ("allclose_units", "assert_allclose_units") + NP_FAMILY:
+        npf = fn in NP_FAMILY
+        free = "zero" if npf else "default"     # the spelling without a tolerance unit
+        for hname, steps in CLOSE_HISTORIES.items():
+            n = len(steps)
+            if npf and n > 1 and not thorough and hname not in NP_QUICK_HISTORIES[fn]:
+                continue
+            if "atol" in hname:
+                atols = ["xa"] if hname == "cross-atol-dim" else (["xc"] if hname == "cross-atol-like-actual" else ["xa", "kxa"])
+            elif npf:
+                # a unit-carrying atol costs ~10 paths per call in the numpy handlers (100 for two calls, with non-linear
+                # obligations): scalar operands only, and not for the heaviest histories
+                heavy = hname == "prefixed-twin-scale" or (fn == "np.isclose" and hname == "twin-scale")
+                atols = [free] + (["xc"] if n == 1 or (thorough and n == 2 and not heavy) else [])
+            elif fn == "assert_allclose_units" and n == 3 and not thorough:
+                atols = [free]
+            else:
+                atols = [free, "xc"] + (["bare"] if n <= 2 or thorough else [])
+            for form in (("q", "a") if (thorough and n < 3) or (n == 1 and not npf) else ("q",)):
+                for atol in atols:
+                    if npf and n > 1 and form == "a" and atol != free:
+                        continue
+                    out.append(make_close_history_case(fn, hname, form, atol))
+    for fn in ("np.array_equal", "np.array_equiv", "assert_array_equal_units"):
+        for hname, steps in EQUAL_HISTORIES.items():
+            n = len(steps)
+            if fn == "assert_array_equal_units":
+                forms = ("a", "q") if n == 1 else ("q",)
+            else:
+                forms = ("a", "q") if thorough or n == 1 else ("a",)
+            for form in forms:
+                out.append(make_equal_history_case(fn, hname, form))
+    return out
 
 
 # ----------------------------------------------------------------------------------------------- decorators
@@ -576,6 +773,258 @@ def decorator_cases(tier, mods):
     return out
 
 
+# ----------------------------------------------------------------------------------------------- decorator call histories
+#
+# The cases above give every spelling ONE dimension per process and make every check once, so a verdict remembered from an
+# earlier call (keyed by the unit's spelling, by the unit without the declared dimension, by the declared dimension without
+# the unit, by the decorated function, by the identity of the quantity object ...) is never contradicted. Here two- and
+# three-call histories run inside one path over subjects that agree pairwise on exactly one of those keys:
+#   A  value in the unit <nm> (dimension D0)                      B  value in a unit SPELLED <nm> whose dimension is D1
+#   C  value in a unit spelled <nm>, dimension D0, other scale     E  value in another spelling <ne>, dimension D1
+# each checked against a declared dimension D0 or D1; expected verdict = (dimension tag of the subject == declared tag),
+# which knows nothing of spellings or of earlier calls.
+
+DH_SUBJECT_DIM = {"A": 0, "B": 1, "C": 0, "E": 1}
+DH_SUBJECT_TEXT = {"A": "a value in the unit", "B": "a value in its spelling twin of the OTHER dimension",
+                   "C": "a value in its spelling twin of the same dimension and another scale", "E": "a value in another spelling of the other dimension"}
+# how the spelling twin B comes about
+DH_KINDS = ("registry",     # the same symbol registered with the other dimension in a second UnitRegistry
+            "redim",        # the symbol removed from the registry and added again with the other dimension (A's Unit stays alive)
+            "direct",       # Unit(<spelling>, base_value=..., dimensions=...) built by hand
+            "reassigned")   # the SAME quantity object as A whose .units attribute is re-assigned between the calls
+DH_SPELLINGS = ("plain", "prefixed", "square", "product")
+DH_USAGES = ("accepts-positional", "accepts-keyword", "returns-single", "returns-tuple", "has-dimensions")
+DH_STEPS = [(subj, d) for subj in "ABCE" for d in (0, 1)]
+
+
+def _unique_name(prefix, text):
+    """a harness unit name that no other case of the run uses: state a changed library keeps between the cases of one worker
+    process (a module-level memo the runner does not know of) then cannot make a symbolic verdict differ from its replay"""
+    import hashlib
+    h = int.from_bytes(hashlib.sha1(text.encode()).digest()[:8], "big")
+    out = ""
+    for _ in range(7):
+        out += "abcdefghijklmnopqrstuvwxyz"[h % 26]
+        h //= 26
+    return prefix + out
+
+
+def dh_names(cid):
+    return [_unique_name(pfx, cid) for pfx in ("xh", "xi", "xj", "xv")]
+
+
+def make_decorator_history_case(pname, D0, D1, kind, spelling, script, usages, share):
+    """script: tuple of (subject, declared tag); usages: the decorator usage of each step; share: steps with the same usage and
+    declared dimension go through the SAME decorated function object (else every step decorates afresh)"""
+    cid = (f"C19/decorator-history/{pname}/{kind}/{spelling}/{'shared' if share else 'fresh'}/"
+           + "+".join(f"{u}:{subj}:D{d}" for u, (subj, d) in zip(usages, script)))
+    nm, ne, ng0, ng1 = dh_names(cid)
+
+    def h(ctx):
+        from .common import close, payload
+        unyt = ctx.mods["unyt"]
+        Dm = unyt.dimensions
+        dims = (D0, D1)
+
+        def sdim(D):
+            return {"plain": D, "prefixed": D, "square": D**2, "product": D * Dm.time}[spelling]
+
+        def spell(n):
+            return {"plain": n, "prefixed": "k" + n, "square": f"{n}**2", "product": f"{n}*xs"}[spelling]
+
+        def sscale(s, st):
+            return {"plain": s, "prefixed": s * 1000.0, "square": s * s, "product": s * st}[spelling]
+
+        def registry(tag):
+            reg = ctx.registry([])
+            st = 1.0
+            if spelling == "product":
+                st = ctx.real("xs_s" + tag, pos=True)
+                ctx.add_row(reg, "xs", Dm.time, st)
+            return reg, st
+
+        def unit_in(reg, st, name, D, sym):
+            """row `name` of dimension D and symbolic scale in `reg` -> (Unit object of the spelling, its SI scale)"""
+            s = ctx.real(sym, pos=True)
+            ctx.add_row(reg, name, D, s, 0.0, prefixable=True)
+            return unyt.Unit(spell(name), registry=reg), sscale(s, st)
+
+        regA, stA = registry("")
+        uA, kA = unit_in(regA, stA, nm, D0, "sA")
+        uE, kE = unit_in(regA, stA, ne, D1, "sE")
+        uG = [unit_in(regA, stA, ng0, D0, "sG0"), unit_in(regA, stA, ng1, D1, "sG1")]
+        regC, stC = registry("c")
+        uC, kC = unit_in(regC, stC, nm, D0, "sC")
+        if kind in ("registry", "reassigned"):
+            regB, stB = registry("b")
+            uB, kB = unit_in(regB, stB, nm, D1, "sB")
+        elif kind == "redim":
+            regA.remove(nm)
+            uB, kB = unit_in(regA, stA, nm, D1, "sB")
+        elif kind == "direct":
+            regB, stB = registry("b")
+            kB = sscale(ctx.real("sB", pos=True), stB)
+            uB = unyt.Unit(spell(nm), base_value=kB, dimensions=sdim(D1), registry=regB)
+        else:
+            raise KeyError(kind)
+        vals = {k: ctx.real("v" + k) for k in "ABCE"}
+        objs = {"A": ctx.quantity(vals["A"], uA), "C": ctx.quantity(vals["C"], uC), "E": ctx.quantity(vals["E"], uE)}
+        if kind == "reassigned":
+            objs["B"] = objs["A"]
+            vals["B"] = vals["A"]
+        else:
+            objs["B"] = ctx.quantity(vals["B"], uB)
+        units = {"A": (uA, kA), "B": (uB, kB), "C": (uC, kC), "E": (uE, kE)}
+        comp = [ctx.quantity(ctx.real(f"vG{i}"), uG[i][0]) for i in (0, 1)]
+        # the harness' own premise, read off the objects and not through the code under test
+        for k, (u, _) in units.items():
+            if not (u.dimensions == sdim(dims[DH_SUBJECT_DIM[k]]) and str(u.expr) == str(uA.expr if k != "E" else uE.expr)):
+                ctx.require(f"premise: subject {k} has its spelling and dimension", False, unit=str(u), dims=str(u.dimensions))
+                return
+        calls = []
+        made = {}
+
+        def body(x, y=None):
+            ret = ("result", x, y)
+            calls.append(ret)
+            return ret
+
+        def ident(q):
+            calls.append(q)
+            return q
+
+        def decorated(usage, d):
+            key = (usage, d)
+            if share and key in made:
+                return made[key]
+            decl = sdim(dims[d])
+            if usage == "accepts-positional":
+                f = Dm.accepts(x=decl)(body)
+            elif usage == "accepts-keyword":
+                f = Dm.accepts(y=decl)(body)
+            elif usage == "returns-single":
+                f = Dm.returns(decl)(ident)
+            elif usage == "returns-tuple":
+                def pair(q, c=comp[d]):
+                    t = (c, q)
+                    calls.append(t)
+                    return t
+                f = Dm.returns(decl, decl)(pair)
+            else:
+                f = None
+            made[key] = f
+            return f
+
+        n = len(script)
+        for i, (usage, (subj, d)) in enumerate(zip(usages, script)):
+            q = objs[subj]
+            u, k = units[subj]
+            if kind == "reassigned" and subj in "AB":
+                q.units = u
+            expected = DH_SUBJECT_DIM[subj] == d
+            n0 = len(calls)
+            f = decorated(usage, d)
+            seen = None
+            if usage == "has-dimensions":
+                got = Dm._has_dimensions(q, sdim(dims[d]))
+                ok = got is expected
+                seen = q if expected else None
+                info = dict(got=got)
+            else:
+                r = call(f, 1.0, y=q) if usage == "accepts-keyword" else call(f, q)
+                info = dict(got=str(r)[:160], calls=len(calls) - n0)
+                if usage.startswith("accepts"):
+                    if expected:
+                        ok = r[0] == "ok" and len(calls) == n0 + 1 and r[1] is calls[-1]
+                        if ok:
+                            seen = r[1][2] if usage == "accepts-keyword" else r[1][1]
+                            ok = seen is q
+                    else:
+                        ok = r[0] == "raise" and type(r[1]) is TypeError and len(calls) == n0
+                else:
+                    # the wrapped function always runs exactly once; its result is handed through or TypeError is raised
+                    if expected:
+                        ok = r[0] == "ok" and len(calls) == n0 + 1 and r[1] is calls[-1]
+                        if ok:
+                            seen = r[1][1] if usage == "returns-tuple" else r[1]
+                            ok = seen is q
+                    else:
+                        ok = r[0] == "raise" and type(r[1]) is TypeError and len(calls) == n0 + 1
+            label = (f"call {i + 1} of {n}, {usage}: {DH_SUBJECT_TEXT[subj]}, checked against "
+                     f"{'the dimension of the unit' if d == 0 else 'the other dimension'}, "
+                     + (f"gives {expected}" if usage == "has-dimensions" else ('passes untouched' if expected else 'is refused with TypeError')))
+            if ok and seen is not None:
+                # what came through is physically the value that went in (SI magnitude; decided by the solver)
+                ctx.require(label, And(ok, close(payload(seen)[0] * seen.units.base_value, vals[subj] * k)), to_solver=True, **info)
+            else:
+                ctx.require(label, ok, **info)
+    return Case(cid, h, bounds="symbolic: values and unit scales; enumerated: dimension pair, kind of spelling twin, spelling, usages, history")
+
+
+def decorator_history_cases(tier, mods):
+    Dm = mods["unyt"].dimensions
+    thorough = tier == "thorough"
+    cat = [(n, d) for n, d in dims_catalogue(mods, "quick") if _decomposable(Dm, d)]
+    dpairs = []
+    for i, (n, d) in enumerate(cat):
+        for j in (1, 5):
+            m, e = cat[(i + j) % len(cat)]
+            if e != d:
+                dpairs.append((f"{n}~{m}", d, e))
+        em = Dm.em_dimensions.get(d)
+        if em is not None and em != d:
+            dpairs.append((f"{n}~em_counterpart", d, em))
+    U = DH_USAGES
+    mixed2 = [(a, b) for a in U for b in U if a != b]
+    two = [(x, y) for x in DH_STEPS for y in DH_STEPS]
+    if thorough:
+        three = [(x, y, z) for x in DH_STEPS for y in DH_STEPS for z in DH_STEPS]
+    else:
+        three = []
+        for x, y in two:
+            for t in ((x, y, x), (x, x, y), (x, y, y)):
+                if t not in three:
+                    three.append(t)
+    out = []
+    k = 0
+
+    def add(script, kind, spelling, same, share):
+        nonlocal k
+        k += 1
+        pname, D0, D1 = dpairs[k % len(dpairs)]
+        if same:
+            usages = (U[k % len(U)],) * len(script)
+        else:
+            a, b = mixed2[k % len(mixed2)]
+            usages = (a, b) + ((U[(k // 3) % len(U)],) if len(script) == 3 else ())
+        out.append(make_decorator_history_case(pname, D0, D1, kind, spelling, script, usages, share))
+
+    for si, script in enumerate(two):
+        for ki, kind in enumerate(DH_KINDS):
+            if thorough:
+                for spelling in DH_SPELLINGS:
+                    add(script, kind, spelling, True, True)
+                    add(script, kind, spelling, False, False)
+            else:
+                same = (si + ki) % 2 == 0
+                add(script, kind, DH_SPELLINGS[(si + ki) % 4], same, same)
+                if same and (si // 2 + ki) % 4 == 0:
+                    add(script, kind, DH_SPELLINGS[(si + ki + 1) % 4], False, False)
+    for si, script in enumerate(three):
+        for ki, kind in enumerate(DH_KINDS):
+            if not thorough and ki != si % 4:
+                continue
+            same = (si + ki) % 2 == 0
+            add(script, kind, DH_SPELLINGS[(si // 4 + ki) % 4], same, same or (si % 3 == 0))
+    names = []
+    for c in out:
+        names += dh_names(c.id)
+    if len(set(names)) != len(names):
+        raise ValueError("decorator-history unit names collide")
+    check_names(mods, names)
+    return out
+
+
 def _decomposable(Dm, d):
     try:
         _powers(Dm, d)
@@ -681,5 +1130,7 @@ def cases(tier, mods):
     for fn in ("np.array_equal", "np.array_equiv", "assert_array_equal_units"):
         for fa, ua, fb, ub in eq_pairs:
             out.append(make_equal_case(fn, fa, ua, fb, ub))
+    out += twin_cases(tier)
     out += decorator_cases(tier, mods)
+    out += decorator_history_cases(tier, mods)
     return out
